@@ -8,10 +8,19 @@ open Cppcheck.Wire Cppcheck.ValueTypeConv Cppcheck.ConvSpec
      bin  <platform> <c|cpp> <t1> <t2>   →  var=<vt a>,<vt b> then for every well-typed binary operator and `tern`
                                              <name>=<model base>/<model fixA>/<model fixAB>|<language spec through declVT>
      un   <platform> <c|cpp> <t>         →  the unary operators and the casts to every type, same format
+     lit  <platform> <dec|oct|hex> <u:0|1> <#l> <value>  →  lit=<model>|<language or none> K:k6=..,k7=..
      plat <platform>                     →  the generated platform record (sizes, char sign, shape) -/
 namespace Driver.C09
 
-def findPlat (n : String) : Option Plat := Cppcheck.Gen.PlatformsC09.platforms.find? (fun p => p.name == n)
+/-- a platform of the generated table by name, or explicit sizes `x:<charBit>:<short>:<int>:<long>:<llong>:<charUnsigned>`
+    (used by the thorough tier to ask for the spec of a clang target) -/
+def findPlat (n : String) : Option Plat :=
+  match n.splitOn ":" with
+  | ["x", cb, sh, i, l, ll, cu] =>
+    match cb.toNat?, sh.toNat?, i.toNat?, l.toNat?, ll.toNat? with
+    | some cb, some sh, some i, some l, some ll => some ⟨n, cb, sh, i, l, ll, cu == "1"⟩
+    | _, _, _, _, _ => none
+  | _ => Cppcheck.Gen.PlatformsC09.platforms.find? (fun p => p.name == n)
 
 /-- `<base>/<fixA>/<fixAB>|<spec>` -/
 def triple (f : Variant → Option VT) (s : CT) : String :=
@@ -24,7 +33,8 @@ def binLine (P : Plat) (cpp : Bool) (t1 t2 : CT) : String :=
   let ops := BinOp.all.filter (fun op => wellTypedBin op t1 t2)
   let parts := ops.map (fun op => op.name ++ "=" ++ triple (fun v => convBin v s cpp op v1 v2) (specBin s cpp op t1 t2))
   let tern := "tern=" ++ triple (fun v => convTernary v s cpp v1 v2) (specTernary s cpp t1 t2)
-  " ".intercalate (("var=" ++ v1.str ++ "," ++ v2.str) :: parts ++ [tern])
+  let flags := s!"K:k1={boolStr (sameSizeDifferentRankMixedSign s t1 t2)},k2a={boolStr (promotesToUnsigned s t1)},k2b={boolStr (promotesToUnsigned s t2)},svt={boolStr (sameVType t1 t2)},cons={boolStr s.consistent}"
+  " ".intercalate (("var=" ++ v1.str ++ "," ++ v2.str) :: parts ++ [tern, flags])
 
 def unLine (P : Plat) (cpp : Bool) (t : CT) : String :=
   let s := P.shape
@@ -32,7 +42,8 @@ def unLine (P : Plat) (cpp : Bool) (t : CT) : String :=
   let ops := UnOp.all.filter (fun op => wellTypedUn op t)
   let parts := ops.map (fun op => op.name ++ "=" ++ triple (fun vr => convUn vr s op v) (specUn s cpp op t))
   let casts := CT.all.map (fun t2 => "cast_" ++ t2.name ++ "=" ++ triple (fun _ => some (convCast t2)) t2)
-  " ".intercalate (("var=" ++ v.str) :: parts ++ casts)
+  let flags := s!"K:k2={boolStr (promotesToUnsigned s t)},below={boolStr (belowInt t)},cons={boolStr s.consistent}"
+  " ".intercalate (("var=" ++ v.str) :: parts ++ casts ++ [flags])
 
 def lang? : String → Option Bool
   | "c" => some false
@@ -49,6 +60,21 @@ def step (line : String) : String :=
     match findPlat p, lang? l, CT.ofName a with
     | some P, some cpp, some t => unLine P cpp t
     | _, _, _ => "bad-op"
+  | ["lit", p, b, u, l, v] =>
+    -- integer literal: base dec|oct|hex, `u` suffix 0|1, number of `l`s, value
+    match findPlat p, (match b with | "dec" => some Base.dec | "oct" => some Base.oct | "hex" => some Base.hex | _ => none),
+          l.toNat?, v.toNat? with
+    | some P, some base, some longs, some value =>
+      let us := u == "1"
+      let imax := maxValue (P.charBit * P.sizeofInt)
+      let lmax := maxValue (P.charBit * P.sizeofLong)
+      let llmax := maxValue (P.charBit * P.sizeofLongLong)
+      let c := litType P (P.name == "unspecified") (base != .hex) us longs value
+      let sp := match litSpec imax lmax llmax base us longs value with
+        | some t => (asVT t).str
+        | none => "none"
+      s!"lit={c.str}|{sp} K:k6={boolStr (hexWindow imax lmax base longs value)},k7={boolStr (octalAsDecimal imax lmax base us longs value)}"
+    | _, _, _, _ => "bad-op"
   | ["plat", p] =>
     match findPlat p with
     | some P =>
